@@ -221,7 +221,7 @@ def builder_cases(tier):
     lkinds = ["int", "sym", "none"]
     for ff in (0, 1):
         for edw in (0, 1):
-            for ph in PHSP + ["default"]:
+            for ph in PHSP + ["default", "chew_mandelstam_s_wave"]:   # (the last one is a plain function, not an expression class)
                 for lk in lkinds:
                     for pi in (0, 1) if (tier == "thorough" or lk == "int") else (0,):
                         cases.append(("", ff, edw, ph, lk, pi))
@@ -296,24 +296,31 @@ def build_records(tier, rng):
             "fn_ff": canon(f_ff) if f_ff is not None else NONE_TERM,
         }
         recs.append(rec)
-        # the documented composition, as an expression, for the numerical law
+        # the documented composition, as an expression, for the numerical law.  The public functions are formulated on their own,
+        # with a plain symbol for s that only gets its value m^2 at the point (the builder passes the expression m**2)
+        s_free = sp.Symbol("s_free", nonnegative=True)
+        g_bw = relativistic_breit_wigner(s_free, m_r, g_r)
+        g_bwff = g_ff = None
+        if L is not None:
+            g_bwff = relativistic_breit_wigner_with_ff(s_free, m_r, g_r, m1, m2, L, d_r, spec_ph)
+            g_ff = FormFactor(s_free, m1, m2, L, d_r)
         if conv == "create_non_dynamic":
             want = sp.S.One
         elif conv == "create_non_dynamic_with_ff":
-            want = f_ff
+            want = g_ff
         else:
             fl = {"create_relativistic_breit_wigner": (0, 0), "create_relativistic_breit_wigner_with_ff": (1, 1), "create_analytic_breit_wigner": (1, 1)}.get(conv, (ff, edw))
             if fl == (0, 0):
-                want = f_bw
+                want = g_bw
             elif L is None:
                 want = None
             elif fl == (1, 0):
-                want = f_ff * f_bw
+                want = g_ff * g_bw
             elif fl == (1, 1):
-                want = f_bwff
+                want = g_bwff
             else:
-                want = f_bwff / f_ff
-        exprs.append((expr, want, {"m": m, "m1": m1, "m2": m2, "m_r": m_r, "g_r": g_r, "d_r": d_r, "L": L}))
+                want = g_bwff / g_ff
+        exprs.append((expr, want, {"m": m, "m1": m1, "m2": m2, "m_r": m_r, "g_r": g_r, "d_r": d_r, "L": L, "s_free": s_free}))
     return recs, exprs
 
 
@@ -332,11 +339,15 @@ def adjudicate(rec_id, rec, expr, want, syms, rng, npts):
             mv = thr + sp.Rational(rng.randint(5, 90), 100)
         vals = {syms["m"]: mv, syms["m1"]: m1v, syms["m2"]: m2v, syms["m_r"]: sp.Rational(rng.randint(110, 250), 100),
                 syms["g_r"]: sp.Rational(rng.randint(5, 60), 100), syms["d_r"]: sp.Rational(rng.randint(50, 300), 100)}
+        vals[syms["s_free"]] = mv**2
         if isinstance(syms["L"], sp.Symbol):
             vals[syms["L"]] = rng.choice([0, 1, 2, 3])
         row = {"st": "num"}
         try:
             for tag, e in (("b", expr), ("f", want)):
+                # (values first, then unfolding, on both sides.  Unfolding the builder's expression symbolically first was tried - seed
+                # C12_j needs it - and given up for lack of time: on the unchanged tree the two orders differ beyond the tolerance
+                # for symbolic L, see DESIGN 10.4 batch 20)
                 v = sp.sympify(e).subs(vals).doit()
                 re, im = reim50(v)
                 row[tag + "_re"], row[tag + "_im"] = bigz(quantise(re)), bigz(quantise(im))
@@ -420,7 +431,7 @@ def run(chk, replay=None):
     for j, (rec, (expr, want, syms)) in enumerate(zip(bld, exprs)):
         if expr is None or want is None:
             continue
-        if tier == "thorough" or j % 3 == chk.seed % 3:
+        if tier == "thorough" or j % 3 == chk.seed % 3 or rec["phsp"] == "chew_mandelstam_s_wave":
             adj.append(adjudicate(base + j, rec, expr, want, syms, rng, 3 if tier == "thorough" else 2))
     for i, r in enumerate(adj):
         r["id"] = len(records) + i
